@@ -117,7 +117,9 @@ impl FeatureState for CombinedFeatureState {
     }
 
     fn accept_route_state(&self, route_ctx: &mut RouteContext) {
-        accept_route_state_with_states(&self.states, route_ctx)
+        // NOTE a combined feature is one of many features: it must neither clear the states of the others
+        // nor reset the stale flag while they are still being updated, so it only forwards the call
+        self.states.iter().for_each(|state| state.accept_route_state(route_ctx));
     }
 
     fn accept_solution_state(&self, ctx: &mut SolutionContext) {
